@@ -12,9 +12,16 @@
   codec differential (lib/codecgen.py, requests pf64/pf32/df64/df32: > 10^6 values through exactly these functions,
   compared bit for bit with Rust).
   `print_clean` / `print_ne_nil` need no hypothesis at all.
+  `IntPrintLaw Float` (integral values print like integers, used for `AudioLeadIn`) is reduced in the same way to
+  `FloatOfIntLaw`: the runtime's `Float.ofInt z` has the bit pattern `intBits fmt64 z` (the pattern `roundRat` — i.e.
+  `parseBits` on the decimal digits — assigns to `z`; proved to have value `z` and to print as `intDigits z` in
+  Lemmas/FloatCodecLawsInt.lean), for `z` in the `i32` range. Again a statement about Lean's runtime, not provable
+  in the kernel; it is exercised by every correspondence run that encodes a map (`enc`, `rt`, `edit`).
+  (`IntPrintLaw Float32` is false — 2³¹−1 is not a binary32 value — and is not used.)
 -/
 import RosuModel.Model.FloatInst
 import RosuModel.Lemmas.FloatCodecLawsRt
+import RosuModel.Lemmas.FloatCodecLawsInt
 namespace Rosu
 namespace FCL
 
@@ -58,6 +65,21 @@ theorem float_print_clean (x : Float) : ∀ c ∈ Scalar.print x, numChar c = tr
 theorem float_print_ne_nil (x : Float) : Scalar.print x ≠ [] := printBits_ne_nil fmt64 _
 theorem float32_print_clean (x : Float32) : ∀ c ∈ Scalar.print x, numChar c = true := printBits_clean fmt32 _
 theorem float32_print_ne_nil (x : Float32) : Scalar.print x ≠ [] := printBits_ne_nil fmt32 _
+
+/-- `Float.ofInt` on the `i32` range (about Lean's runtime, not provable in the kernel). -/
+def FloatOfIntLaw : Prop :=
+  ∀ z : Int, -i32Max ≤ z → z ≤ i32Max → (Float.ofInt z).toBits.toNat = intBits fmt64 z
+
+/-- **`IntPrintLaw` for the driver's `Float`**, given the `ofInt` law. -/
+theorem intPrintLaw_float (h : FloatOfIntLaw) : IntPrintLaw Float := by
+  intro n h1 h2
+  show printBits fmt64 (Float.ofInt n).toBits.toNat = intDigits n
+  rw [h n h1 h2]
+  exact printBits_intBits_f64 n (by unfold i32Max at *; omega)
+
+example : intBits fmt64 (-2147483647) = 0xC1DFFFFFFFC00000 := by decide +kernel
+example : intBits fmt64 0 = 0 := by decide +kernel
+example : intBits fmt64 1 = 0x3FF0000000000000 := by decide +kernel
 
 /-! ### concrete instances of the bit-level theorem (non-vacuity; evaluated by the kernel) -/
 
